@@ -951,7 +951,17 @@ impl NodeDeletionEntry {
     ) -> std::result::Result<(), rusqlite::Error> {
         let query = "DELETE FROM _node WHERE room_id=? AND id=?";
         let mut stmt = conn.prepare_cached(query)?;
+        // the version stored locally may differ from the one named in the record: its day loses a row too
+        let mut local_stmt =
+            conn.prepare_cached("SELECT _entity, mdate FROM _node WHERE room_id=? AND id=?")?;
         for node in nodes {
+            let mut rows = local_stmt.query((node.room_id, node.id))?;
+            while let Some(row) = rows.next()? {
+                let entity: String = row.get(0)?;
+                let mdate: i64 = row.get(1)?;
+                daily_log.set_need_update(node.room_id, &entity, mdate);
+            }
+            drop(rows);
             stmt.execute((node.room_id, node.id))?;
             node.write(conn)?;
             daily_log.set_need_update(node.room_id, &node.entity, node.deletion_date);
